@@ -90,6 +90,16 @@ two goroutines may execute the same statement) is ordered. -/
 def raceFree (tbl : List Access) : Prop :=
   ∀ a ∈ tbl, ∀ b ∈ tbl, conflict a b → ordered a b
 
+/-- Location `f` is *frozen* in the table: nothing writes it once it is published (every write row is
+constructor-phase).  For the `published:` locations — the contents of the messages a resource stores
+and hands out by pointer to `Get`/`List`/`Pull` callers, interceptors and event consumers — this is
+exactly C07's "published messages are never written", read off the table. -/
+def frozenIn (t : List Access) (f : Nat) : Prop :=
+  ∀ a ∈ t, a.field = f → a.kind = Kind.W → a.phase = Phase.init
+
+def frozenInB (t : List Access) (f : Nat) : Bool :=
+  t.all fun a => !(a.field == f) || !(a.kind == Kind.W) || a.phase == Phase.init
+
 /-! ### Executable versions (what `decide`, the driver and the harness evaluate) -/
 
 def conflictB (a b : Access) : Bool :=
@@ -117,6 +127,30 @@ with every row (a conflict needs a write, a constructor-phase row is ordered wit
 `ordered` is symmetric) — see `raceFreeW_iff`. -/
 def raceFreeW (tbl : List Access) : Bool :=
   (tbl.filter fun a => a.kind == Kind.W && a.phase == Phase.live).all fun a => tbl.all fun b => pairOkB a b
+
+/-- The decision the kernel actually runs on the extracted table.  The generator sorts the rows by
+field, so the table is a sequence of *runs* of equal field; only rows of one run can conflict.  `goRuns`
+walks the table once, collects the current run, checks each completed run with `raceFreeW` and checks
+that the field numbers of consecutive runs strictly increase (so that two different runs never share a
+field).  Quadratic only in the run lengths — see `raceFreeG_sound` (sound for every table; it answers
+`false` on a table that is not sorted, it never accepts a table that is not race free). -/
+def goRuns : List Access → List Access → Bool
+  | cur, [] => raceFreeW cur
+  | [], b :: rest => goRuns [b] rest
+  | a :: cur, b :: rest =>
+    if b.field == a.field then goRuns (b :: a :: cur) rest
+    else Nat.blt a.field b.field && raceFreeW (a :: cur) && goRuns [b] rest
+
+def raceFreeG (tbl : List Access) : Bool := goRuns [] tbl
+
+/-- the generator's order: field numbers never decrease along the table -/
+def sortedByField : List Access → Prop
+  | [] => True
+  | a :: rest => (∀ b ∈ rest, a.field ≤ b.field) ∧ sortedByField rest
+
+def sortedByFieldB : List Access → Bool
+  | [] => true
+  | a :: rest => rest.all (fun b => Nat.ble a.field b.field) && sortedByFieldB rest
 
 /-- The unordered conflicting pairs of a table (indices), what the static monitor reports. -/
 def badPairs (tbl : List Access) : List (Nat × Nat) :=
